@@ -57,6 +57,9 @@ class NF(ast.NodeTransformer):
     def visit_BinOp(self, n):
         n = self.generic_visit(n)
         l, r = n.left, n.right
+        if isinstance(n.op, ast.Mod) and isinstance(l, ast.Constant) and isinstance(l.value, str) and isinstance(r, ast.Tuple) and len(r.elts) == 1 \
+                and not isinstance(r.elts[0], (ast.Tuple, ast.Starred)):
+            n.right = r = r.elts[0]
         if isinstance(l, ast.Constant) and isinstance(r, ast.Constant):
             a, b = l.value, r.value
             try:
@@ -86,6 +89,40 @@ class NF(ast.NodeTransformer):
                 if isinstance(x, ast.List) and isinstance(y, ast.Constant) and _is_int(y.value) and 0 <= y.value * max(1, len(x.elts)) <= 64:
                     return ast.copy_location(ast.List(elts=[_clone(e) for _ in range(y.value) for e in x.elts], ctx=ast.Load()), n)
         return n
+
+    # ---- message formatting: an f-string is the %-format with the same conversions ({x!r} = %r, {x!s} = {x} = %s,
+    # {x:d} = %d, {x:x} = %x, {x:02x} = %02x); str.format with positional {} likewise
+    def visit_JoinedStr(self, n):
+        n = self.generic_visit(n)
+        fmt, args = '', []
+        for v in n.values:
+            if isinstance(v, ast.Constant) and isinstance(v.value, str):
+                fmt += v.value.replace('%', '%%')
+            elif isinstance(v, ast.FormattedValue):
+                spec = ''
+                if v.format_spec is not None:
+                    if not (isinstance(v.format_spec, ast.JoinedStr) and all(isinstance(x, ast.Constant) for x in v.format_spec.values)):
+                        return n
+                    spec = ''.join(str(x.value) for x in v.format_spec.values)
+                if v.conversion == ord('r') and not spec:
+                    fmt += '%r'
+                elif v.conversion in (-1, ord('s')) and not spec:
+                    fmt += '%s'
+                elif v.conversion == -1 and len(spec) >= 1 and spec[-1] in 'dxXo' and (spec[:-1] == '' or spec[:-1].isdigit()):
+                    fmt += '%' + spec
+                else:
+                    return n
+                args.append(v.value)
+            else:
+                return n
+        if not args:
+            return _const(fmt.replace('%%', '%'), n)
+        right = args[0] if len(args) == 1 and not isinstance(args[0], ast.Tuple) else ast.Tuple(elts=args, ctx=ast.Load())
+        out = ast.BinOp(left=ast.Constant(value=fmt), op=ast.Mod(), right=right)
+        for x in ast.walk(out):
+            if not hasattr(x, 'lineno'):
+                ast.copy_location(x, n)
+        return ast.copy_location(out, n)
 
     def visit_UnaryOp(self, n):
         n = self.generic_visit(n)
@@ -118,6 +155,17 @@ class NF(ast.NodeTransformer):
                 if isinstance(a, ast.Call) and norm(a.func) == 'reversed' and len(a.args) == 1:
                     return ast.copy_location(ast.Subscript(value=a.args[0], slice=ast.Slice(lower=None, upper=None, step=ast.UnaryOp(op=ast.USub(), operand=ast.Constant(value=1))),
                                                            ctx=ast.Load()), n)
+        # <int literal>.to_bytes(n, order)  /  int.from_bytes(<bytes literal>, order)
+        if isinstance(f, ast.Attribute) and f.attr == 'to_bytes' and isinstance(f.value, ast.Constant) and _is_int(f.value.value) and len(n.args) == 2 \
+                and not n.keywords and all(isinstance(a, ast.Constant) for a in n.args) and _is_int(n.args[0].value) and 0 <= n.args[0].value <= 4096 \
+                and n.args[1].value in ('little', 'big'):
+            try:
+                return _const(f.value.value.to_bytes(n.args[0].value, n.args[1].value), n)
+            except (OverflowError, ValueError):
+                pass
+        if name == 'int.from_bytes' and len(n.args) == 2 and not n.keywords and all(isinstance(a, ast.Constant) for a in n.args) \
+                and isinstance(n.args[0].value, bytes) and n.args[1].value in ('little', 'big'):
+            return _const(int.from_bytes(n.args[0].value, n.args[1].value), n)
         if name == 'dict' and not n.args and n.keywords and all(k.arg for k in n.keywords):
             return ast.copy_location(ast.Dict(keys=[ast.Constant(value=k.arg) for k in n.keywords], values=[k.value for k in n.keywords]), n)
         if name == 'super' and len(n.args) == 2:
@@ -588,33 +636,50 @@ class Restorer(object):
                 # (6) `x = A if T else B` / `return A if T else B` where T is a guard the confirmed tree tests in an if-statement:
                 # read as that if-statement
                 for i, s in enumerate(blk):
-                    val = s.value if isinstance(s, (ast.Assign, ast.Return)) else None
-                    if isinstance(val, ast.IfExp) and (not isinstance(s, ast.Assign) or len(s.targets) == 1):
-                        kt = known(val.test)
-                        neg = ast.UnaryOp(op=ast.Not(), operand=val.test)
-                        kn = known(neg) if kt is None else None
-                        if kt is None and kn is None:
-                            continue
+                    if not isinstance(s, (ast.Assign, ast.AugAssign, ast.Return, ast.Expr)) or s.value is None:
+                        continue
+                    if isinstance(s, ast.Assign) and (len(s.targets) != 1 or any(isinstance(x, (ast.Call, ast.Subscript)) for x in ast.walk(s.targets[0]))):
+                        continue
+                    if not any(isinstance(x, ast.IfExp) for x in ast.walk(s.value)):
+                        continue
+                    from .lower import first_unconditional
+                    hit = first_unconditional(s.value, ast.IfExp)
+                    if hit is None:
+                        continue
+                    val = hit[0]
+                    kt = known(val.test)
+                    neg = ast.UnaryOp(op=ast.Not(), operand=val.test)
+                    kn = known(neg) if kt is None else None
+                    if kt is None and kn is None:
+                        continue
 
-                        def mk(v_):
-                            if isinstance(s, ast.Return):
-                                n_ = ast.Return(value=v_)
-                            else:
-                                n_ = ast.Assign(targets=[_clone(s.targets[0])], value=v_)
-                            for x in ast.walk(n_):
-                                ast.copy_location(x, s)
-                            return n_
-                        test = val.test if kt is not None else neg
-                        a_, b_ = (val.body, val.orelse) if kt is not None else (val.orelse, val.body)
-                        new_if = ast.If(test=test, body=[mk(a_)], orelse=[mk(b_)])
-                        ast.copy_location(new_if, s)
-                        for x in ast.walk(new_if.test):
+                    def mk(pick):
+                        n_ = _clone(s)
+                        h2 = first_unconditional(n_.value, ast.IfExp)
+                        w2, parent, field, index = h2
+                        arm = w2.body if pick else w2.orelse
+                        if parent is None:
+                            n_.value = arm
+                        elif index is None:
+                            setattr(parent, field, arm)
+                        else:
+                            getattr(parent, field)[index] = arm
+                        for x in ast.walk(n_):
                             ast.copy_location(x, s)
-                        blk[i] = new_if
-                        self.log(s, 'conditional expression on `%s` read as the if-statement of the confirmed tree' % norm(val.test)[:40])
-                        changed += 1
-                        again = True
-                        break
+                        return n_
+                    if kt is not None:
+                        test, a_, b_ = _clone(val.test), mk(True), mk(False)
+                    else:
+                        test, a_, b_ = neg, mk(False), mk(True)
+                    new_if = ast.If(test=test, body=[a_], orelse=[b_])
+                    ast.copy_location(new_if, s)
+                    for x in ast.walk(new_if.test):
+                        ast.copy_location(x, s)
+                    blk[i] = new_if
+                    self.log(s, 'conditional expression on `%s` read as the if-statement of the confirmed tree' % norm(val.test)[:40])
+                    changed += 1
+                    again = True
+                    break
                 if again:
                     break
                 # (7) a guard clause `if C: continue` in front of the rest of a loop body is `if not C: <rest>` when that is
